@@ -247,6 +247,29 @@ def handle (line : String) : String :=
           | .ok rounds => "ok " ++ ";".intercalate (rounds.map (fun rd => showVals rd.1))
           | .error e => "err " ++ errStr e
       | _, _, _ => "bad-input"
+  | "proggen" :: fs :: npre :: n :: sigs =>
+      -- the same program run through the update / reset visitors translated from the source (`Rtamt/Py/RunGlue.lean`):
+      -- `npre` updates, `reset()` if npre > 0, then the remaining updates; prints the rounds after the reset
+      match (fs.splitOn ";;").mapM (fun s => parseFormula s), npre.toNat?, n.toNat?, parseEnv sigs with
+      | some specs, some npre, some n, some w =>
+          let es := (List.range n).map (fun t => fun x => sigma w x t)
+          let r : Except PyErr (List (List (Option Float))) := do
+            let ops ← initStore Generated.onlineDiscrete.handles Generated.onlineDiscrete.raises specs []
+            let st0 : Py.GSt Float := { ops := ops, updated := [], results := [] }
+            let rec feed (st : Py.GSt Float) : List (String → Float) → Except PyErr (Py.GSt Float × List (List (Option Float)))
+              | [] => .ok (st, [])
+              | e :: rest => do
+                  let (vs, st') ← Py.updateSpecsG e specs st
+                  let (st'', more) ← feed st' rest
+                  pure (st'', vs :: more)
+            let (st1, _) ← feed st0 (es.take npre)
+            let st2 ← (if npre > 0 then Py.resetSpecsG specs st1 else pure st1)
+            let (_, rounds) ← feed st2 (es.drop npre)
+            pure rounds
+          match r with
+          | .ok rounds => "ok " ++ ";".intercalate (rounds.map (fun rd => showVals (rd.map (fun o => o.getD 0.0))))
+          | .error e => "err " ++ errStr e
+      | _, _, _, _ => "bad-input"
   | "units" :: unit :: period :: punit :: b :: bu :: e :: eu :: _ =>
       -- elaboration of one surface interval: discrete samples and dense default-unit bounds
       let ou (s : String) : Option (Option TUnit) := if s = "-" then some none else (parseUnit s).map some
